@@ -64,7 +64,7 @@ SPEC = {
                  "C18_size_bound", "C18_add_drops_only_when_full", "C18_replace_never_drops",
                  "C18_statement_holds", "C18_cancel_true_iff_prevented", "C18_old_size_bound_witness",
                  "C18_old_after_shutdown_witness", "C18_eventually_delivered", "C18_due_element_moves",
-                 "C18_shutdown_wakes_pollers", "C18_skeleton_add", "C18_skeleton_shutdown", "C18_skeleton_poll",
+                 "C18_shutdown_wakes_pollers", "C18_shutdown_returns_when_done", "C18_shutdown_return_step", "C18_skeleton_add", "C18_skeleton_shutdown", "C18_skeleton_poll",
                  "C18_skeleton_cancel", "C18_skeleton_executor", "C18_skeleton_taskexecutor",
                  "C18_facts_queue", "C18_facts_poll", "C18_facts_element", "C18_facts_executor", "C18_facts_taskexecutor",
                  "C18_facts_heap", "C18_facts_methods", "C18_skeleton_types", "C18_skeleton_helpers", "C18_facts_flags",
@@ -74,7 +74,8 @@ SPEC = {
         "and generalheap); ties: (1) differential execution of the model's own transition function under a deterministic scheduler "
         "against the real TaskExecutor driven at well separated instants (harness/c18 + drv_c18), (2) the trace predicate okLog "
         "evaluated on stress / forced-schedule traces of the real code, (3) regenerated synchronisation skeletons "
-        "(Hive/Gen/C18_Skel.lean) as proof obligations",
+        "(Hive/Gen/C18_Skel.lean) and regenerated statements / method sets / constants (Hive/Gen/C18_Facts.lean, harness/c18/facts) "
+        "as proof obligations, (4) the heap model compared slice by slice with a real generalheap.Heap under container/heap (gheap lines)",
         "Go's sync.Mutex / sync.Cond / select / context / timer semantics as written down in the model (Wait registers before "
         "unlocking; Signal wakes one registered waiter and is lost without one; Broadcast wakes all; select picks any ready case; "
         "a timer is ready iff clock >= deadline; the clock is monotone)",
@@ -107,13 +108,18 @@ SPEC = {
                 "(C18_cancel_true_iff_prevented, C18_statement_holds - the queue marks every element it drops, the two former "
                 "known findings are fixed and kept as C18_old_*_witness); no stuck configuration with a pending element, also "
                 "after Shutdown without CancelPendingElements (C18_eventually_delivered), Shutdown wakes every waiting poller "
-                "(C18_shutdown_wakes_pollers). Tie: the real TaskExecutor is driven from one goroutine at instants tens "
+                "(C18_shutdown_wakes_pollers), Executor.Shutdown returns only when the heap is empty and every worker has ended "
+                "(C18_shutdown_returns_when_done); the size bound holds and Add drops only from a full queue, a replacement never "
+                "drops (C18_size_bound, C18_add_drops_only_when_full, C18_replace_never_drops); the lock order computed from the "
+                "regenerated skeletons is acyclic (C18_lock_order); the statements of all anchored functions, the method sets and "
+                "the ShutdownFlag constants are regenerated and pinned (C18_facts_*). Tie: the real TaskExecutor is driven from one goroutine at instants tens "
                 "of ms apart (operations at even, due times at odd clock values; timing validity judged by a canary goroutine and "
                 "the harness's own lateness, invalid cases re-run with a larger unit) and must give line by line the answers of "
                 "the compiled Lean model run under a deterministic scheduler (return values, Size(), which task ran in which "
                 "clock unit, when Shutdown returned); forced schedules through two verif hooks (Poll before select, Add before "
                 "insertion); stress traces judged by okLog; independent Go oracle (early, double, ran after Cancel true, wrong "
-                "Cancel result, replaced task ran, missing delivery, Shutdown hang); regenerated synchronisation skeletons.",
+                "Cancel result, replaced task ran, missing delivery, Shutdown hang, an element dropped although the size bound was not exceeded - read off the "
+                "elements' cancel channels); regenerated synchronisation skeletons, statements, method sets, constants, lock order.",
         "note": "Trusted: Lean kernel; the hand-written model and Go's sync/timer semantics as modelled; real-time tie with generous "
                 "margins (cases whose own timing was disturbed are re-run, persistently disturbed ones dropped and counted). Nine "
                 "defects of the unchanged tree were exhibited and repaired by fix: commits; no known finding remains.",
